@@ -5,9 +5,9 @@
 set -u
 D="$(readlink -f "$1")"
 WT="/tmp/lexsim_vs_$$"
-export CARGO_TARGET_DIR=/tmp/seeded_target CARGO_NET_OFFLINE=true
+export CARGO_TARGET_DIR="/tmp/seeded_target_$$" CARGO_NET_OFFLINE=true
 git -C /repo worktree add -q --detach "$WT" HEAD || exit 2
-trap 'git -C /repo worktree remove --force "$WT" 2>/dev/null; rm -rf "$WT"' EXIT
+trap 'git -C /repo worktree remove --force "$WT" 2>/dev/null; rm -rf "$WT" "$CARGO_TARGET_DIR"' EXIT
 cd "$WT" || exit 2
 git apply "$D/patch.diff" || { echo "VERDICT patch-does-not-apply"; exit 1; }
 suite="$(cargo test --workspace --offline --no-fail-fast 2>&1 | grep -E '^test result' | awk '{p+=$4; f+=$6} END {print p":"f}')"
